@@ -174,6 +174,8 @@ def fields_eq(ex, c, xa, xb, opts):
         return z_and(name_eq(fa[0], fb[0]) if opts.names else True, scalar_eq(fa[1], fb[1]))
     if c == "Unifier":
         same = veq(fa[0], fb[0]) if opts.cell_eq is None else opts.cell_eq(fa[0], fb[0])
+        if getattr(opts, "hole_shifts", True) is False:
+            return same
         return z_and(same, scalar_eq(fa[1], fb[1]))
     if c in ("Lambda", "Pi"):
         return z_and(name_eq(fa[0], fb[0]) if opts.names else True, scalar_eq(fa[1], fb[1]),
